@@ -139,7 +139,7 @@ NAMESPACES = {'Lemmas.MiniPyFuel': 'Bridge.Py',
               'Lemmas.RegexMsgBidD': 'Bridge.RegexMsgBid',
               'Translated.MsgParsersA': 'Bridge.Translated.MsgParsers', 'Translated.MsgParsersC': 'Bridge.Translated.MsgParsers',
               'Translated.MsgParsersD': 'Bridge.Translated.MsgParsers', 'Translated.MsgParsersE': 'Bridge.Translated.MsgParsers', 'Translated.MsgParsersF': 'Bridge.Translated.MsgParsers',
-              'Translated.ThreadsMainF': 'Bridge.Translated.MainA', 'Translated.ThreadsMainG': 'Bridge.Translated.MainB', 'Translated.ThreadsMainE': 'Bridge.Translated.MainE',
+              'Translated.ThreadsMainF': 'Bridge.Translated.MainA', 'Translated.ThreadsMainG': 'Bridge.Translated.MainB', 'Translated.ThreadsMainH': 'Bridge.Translated.MainB', 'Translated.ThreadsMainE': 'Bridge.Translated.MainE',
               'Lemmas.RegexMsgHandA': 'Bridge.RegexMsgHand', 'Lemmas.RegexMsgHandB': 'Bridge.RegexMsgHand',
               'Translated.HandParsersA': 'Bridge.Translated.HandParsers', 'Translated.HandParsersB': 'Bridge.Translated.HandParsers',
               'Translated.HandParsersC': 'Bridge.Translated.HandParsers', 'Translated.HandParsersD': 'Bridge.Translated.HandParsers',
